@@ -106,3 +106,45 @@ runner.register('line', run_line_job, replay_line)
 def line_job(spec, monitors, e2=3, trace=False, **caps):
     return {'kind': 'line', 'name': spec['name'], 'spec': spec, 'monitors': list(monitors), 'e2': e2,
             'caps': caps, 'trace': trace}
+
+
+def run_conformance_job(job, seed):
+    '''One linear run of a (long-horizon) scenario under a deterministic tie policy: NOT exhaustive, labelled as a
+    conformance run in the evidence.  Policy "first"/"last": the first/last member of every tie group in canonical order.'''
+    import time as _t
+    spec = job['spec']
+    t0 = _t.time()
+    viol = []
+    steps = 0
+    with _Quiet():
+        w = LineWorld(spec, make_monitors(job['monitors']))
+        path = []
+        try:
+            while not w.done():
+                labels = [l for l in w.menu() if l[0] == 'ev']
+                lab = labels[0] if job['policy'] == 'first' else labels[-1]
+                w.apply(lab)
+                steps += 1
+            w.final()
+        except Violation as v:
+            viol.append({'clause': v.clause, 'detail': v.detail, 'path': [['policy', job['policy']]], 'scenario': job['name']})
+    res = {'scenario': job['name'], 'states': steps + 1, 'transitions': steps, 'branching_states': 0, 'max_menu': 0,
+           'max_tie_group': 0, 'distinct_final_states': 1, 'max_depth': steps, 'violations': len(viol),
+           'facts': {'conformance_run_not_exhaustive': 1}, 'capped': None, 'wall_s': round(_t.time() - t0, 3)}
+    return {'result': res, 'violations': viol, 'validated': 0, 'sample': None}
+
+
+def replay_conformance(job, path):
+    out = run_conformance_job(job, 0)
+    if out['violations']:
+        v = out['violations'][0]
+        return {'clause': v['clause'], 'detail': v['detail'], 'step': 1}
+    return {'final': 'ok'}
+
+
+runner.register('lineconf', run_conformance_job, replay_conformance)
+
+
+def conformance_job(spec, monitors, policy):
+    return {'kind': 'lineconf', 'name': f'{spec["name"]}/policy={policy}', 'spec': spec, 'monitors': list(monitors),
+            'policy': policy}
